@@ -121,6 +121,7 @@ type VC struct {
 	usedLemmas map[string]bool
 	rangeAsserted map[string]bool
 	recvOrd   int
+	measureMemo map[string]string
 	pendingRecv int
 	covers    []*Obligation
 	typeFacts []string // type invariants of heap values mentioned in specs (always true)
